@@ -123,6 +123,13 @@ class Unit:
                     continue
                 new.append(l)
             text = '\n'.join(new)
+        if kv.get('pub'):
+            # R7: widen visibility of a copied type definition (no executable effect) so that
+            # public spec functions may mention it
+            m = re.search(r'(?m)^(\s*)(enum|struct)\b', text)
+            if m:
+                text = text[:m.start(2)] + 'pub ' + text[m.start(2):]
+                self.rewrites.append(dict(rule='R7', item='%s %s' % (kind, name), added='pub'))
         if kv.get('derive'):
             text = '#[derive(%s)]\n' % kv['derive'] + text
         if kv.get('attr'):
@@ -205,6 +212,8 @@ class Unit:
             pre_attr = '#[verifier::external_body]\n'
         if kv.get('attr'):
             pre_attr += '#[%s]\n' % kv['attr'].replace('~', ' ')
+        if mode == 'external_body':
+            loop_specs, inserts = {}, []      # body is dropped (R8)
         # loops
         loops = src.loops(bopen, bclose)
         for k, spec_lines in loop_specs.items():
@@ -247,7 +256,13 @@ class Unit:
             cursor = off
         seg = text[cursor:bclose + 1]
         src_concat.append(seg)
-        pieces.append(('src', seg))
+        if mode == 'external_body':
+            # R8: the body of an assumed (external_body) function is not looked at by Verus; it is
+            # dropped so that it need not type-check outside its crate.  Signature is the real one.
+            pieces.append(('ins', '{ unimplemented!() }'))
+            self.rewrites.append(dict(rule='R8', fn=name, dropped='body (assumed contract)'))
+        else:
+            pieces.append(('src', seg))
         # self-check: source pieces reassemble the original span exactly
         assert ''.join(src_concat) == text[fstart:bclose + 1]
         if named:
